@@ -171,6 +171,15 @@ def cases(tier, seed, shard, nshards):
                     k += 1
                     if k % nshards == shard:
                         yield {"k": "setop", "d": d, "n0": n0, "others": list(chain[:ln])}
+        # operands without any select term (arity 0), in every position of chains of one to three operands; three-operand chains
+        for n0 in range(0, 3):
+            for chain in itertools.product(range(0, 3), repeat=3):
+                for ln in (1, 2, 3):
+                    if n0 and 0 not in chain[:ln] and ln < 3:
+                        continue
+                    k += 1
+                    if k % nshards == shard:
+                        yield {"k": "setop", "d": d, "n0": n0, "others": list(chain[:ln]), "empty_form": ["no-select", "select()"][k % 2]}
     # case
     for d in dl:
         for nwhen in (0, 1, 2):
@@ -498,10 +507,14 @@ def run_setop(case, mon):
     T = reg["Table"]
     t = T("t")
     cols = ["a", "b", "c", "d"]
-    base = Q.from_(t).select(*[t.field(c) for c in cols[:case["n0"]]])
+    def operand(n):
+        if n == 0 and case.get("empty_form") == "no-select":
+            return Q.from_(t)
+        return Q.from_(t).select(*[t.field(c) for c in cols[:n]])
+    base = operand(case["n0"])
     so = None
     for i, n in enumerate(case["others"]):
-        other = Q.from_(t).select(*[t.field(c) for c in cols[:n]])
+        other = operand(n)
         so = (so or base).union(other) if i % 2 == 0 else so.intersect(other)
     expect = any(n != case["n0"] for n in case["others"])
     try:
